@@ -4,6 +4,7 @@ package document
 import (
 	"encoding/xml"
 	"fmt"
+	"reflect"
 	"strings"
 )
 
@@ -754,46 +755,70 @@ func (t *Table) ClearTable() {
 }
 
 // CopyTable 复制表格
+//
+// 返回的表格是深拷贝：表格属性、网格、行、单元格、段落、运行以及嵌套表格
+// 都被复制，副本与原表格不共享任何可变状态。
 func (t *Table) CopyTable() *Table {
-	// 深拷贝表格结构
-	newTable := &Table{
-		Properties: t.Properties,
-		Grid:       t.Grid,
-		Rows:       make([]TableRow, len(t.Rows)),
-	}
-
-	// 复制所有行和单元格
-	for i, row := range t.Rows {
-		newTable.Rows[i] = TableRow{
-			Properties: row.Properties,
-			Cells:      make([]TableCell, len(row.Cells)),
-		}
-
-		for j, cell := range row.Cells {
-			newTable.Rows[i].Cells[j] = TableCell{
-				Properties: cell.Properties,
-				Paragraphs: make([]Paragraph, len(cell.Paragraphs)),
-			}
-
-			// 复制段落内容
-			for k, para := range cell.Paragraphs {
-				newTable.Rows[i].Cells[j].Paragraphs[k] = Paragraph{
-					Properties: para.Properties,
-					Runs:       make([]Run, len(para.Runs)),
-				}
-
-				for l, run := range para.Runs {
-					newTable.Rows[i].Cells[j].Paragraphs[k].Runs[l] = Run{
-						Properties: run.Properties,
-						Text:       Text{Content: run.Text.Content},
-					}
-				}
-			}
-		}
-	}
+	newTable := deepCopyValue(reflect.ValueOf(t)).Interface().(*Table)
 
 	Info("表格复制成功")
 	return newTable
+}
+
+// deepCopyValue 递归复制指针、切片、映射、接口和结构体
+func deepCopyValue(v reflect.Value) reflect.Value {
+	switch v.Kind() {
+	case reflect.Ptr:
+		if v.IsNil() {
+			return v
+		}
+		c := reflect.New(v.Type().Elem())
+		c.Elem().Set(deepCopyValue(v.Elem()))
+		return c
+	case reflect.Interface:
+		if v.IsNil() {
+			return v
+		}
+		c := reflect.New(v.Type()).Elem()
+		c.Set(deepCopyValue(v.Elem()))
+		return c
+	case reflect.Slice:
+		if v.IsNil() {
+			return v
+		}
+		c := reflect.MakeSlice(v.Type(), v.Len(), v.Len())
+		for i := 0; i < v.Len(); i++ {
+			c.Index(i).Set(deepCopyValue(v.Index(i)))
+		}
+		return c
+	case reflect.Map:
+		if v.IsNil() {
+			return v
+		}
+		c := reflect.MakeMapWithSize(v.Type(), v.Len())
+		iter := v.MapRange()
+		for iter.Next() {
+			c.SetMapIndex(iter.Key(), deepCopyValue(iter.Value()))
+		}
+		return c
+	case reflect.Struct:
+		c := reflect.New(v.Type()).Elem()
+		c.Set(v) // 先整体赋值（覆盖不可导出字段），再逐个深拷贝可导出字段
+		for i := 0; i < v.NumField(); i++ {
+			if c.Field(i).CanSet() {
+				c.Field(i).Set(deepCopyValue(v.Field(i)))
+			}
+		}
+		return c
+	case reflect.Array:
+		c := reflect.New(v.Type()).Elem()
+		for i := 0; i < v.Len(); i++ {
+			c.Index(i).Set(deepCopyValue(v.Index(i)))
+		}
+		return c
+	default:
+		return v
+	}
 }
 
 // CellAlignment 单元格对齐方式
